@@ -294,8 +294,8 @@ Definition item_bounds_ok (it : option oitem) : bool :=
       forallb (fun r => r <=? oi_qval i) rxs
   end.
 
-(* the admission rule for a client without an item (C07): a store that is not full admits; a full
-   store admits exactly when the least recently active client is not more recent than the newcomer,
+(* the admission rule for a client without an item (C07): a store that is not full takes the newcomer in; a full
+   store takes it in exactly when the least recently active client is not more recent than the newcomer,
    and then that client - the root of the queue - loses its item; otherwise nothing changes *)
 Definition admission_ok (adm : list value) (rx64 : Z) (post : option oitem) : bool :=
   match adm with
@@ -375,7 +375,7 @@ Fixpoint full_steps (l : list value) : option (bool * bool * bool) :=
    client: [cid old pre [call ...] final]
      call: [0 org rx tx rxt now rorg rrx rtx rref rxt' txt'] | [1 rxt txt txt']
      old = 1: a client never seen before whose requests are older than everything in the full
-     store: it is never admitted (every reply basic, no item at the end) *)
+     store: it never gets an item (every reply basic, no item at the end) *)
 Definition conc_call (cid : Z) (old : bool) (st : option tss * bool) (v : value) : option tss * bool :=
   match st with
   | (None, _) => (None, false)
